@@ -34,20 +34,25 @@ func relax(s string) string {
 	return s
 }
 
-// runCaseA runs one mode (a) script: "#cfg a <ab> <ba> <late>", then
+// runCaseA runs one mode (a) script: "#cfg a <ab> <ba> <late> [<stream> <putlate> <slice|chunks|reader>]", then
 // place / fault lines, then operations.
 func runCaseA(run *hx.Run, model *hx.Model, u *universe, name string, script []string, report bool) caseOut {
 	out := caseOut{agree: true, counts: map[string]int{}}
 	cfg := strings.Fields(script[0])
-	if len(cfg) != 5 || cfg[0] != "#cfg" || cfg[1] != "a" {
+	if (len(cfg) != 5 && len(cfg) != 8) || cfg[0] != "#cfg" || cfg[1] != "a" {
 		out.what, out.detail = "harness: bad configuration line", script[0]
 		return out
 	}
-	ab, ba, late := cfg[2], cfg[3], cfg[4] == "1"
-	s := newSutA(u, ab, ba, late)
+	ab, ba := cfg[2], cfg[3]
+	m := modeA{late: cfg[4] == "1", consume: "slice"}
+	if len(cfg) == 8 {
+		m.stream, m.putLate, m.consume = cfg[5] == "1", cfg[6] == "1", cfg[7]
+	}
+	s := newSutA(u, ab, ba, m)
 	exact := exactKind(ab) && exactKind(ba)
 	lines := []string{fmt.Sprintf("init %s %s", modelStrat(ab), modelStrat(ba))}
 	impl := []string{"ok"}
+	relaxed := map[int]bool{} // reply lines compared up to the error code
 	fail := func(what, detail string) {
 		if out.what == "" {
 			out.what, out.detail = what, detail
@@ -67,10 +72,10 @@ func runCaseA(run *hx.Run, model *hx.Model, u *universe, name string, script []s
 			delete(s.A.store, k)
 			delete(s.B.store, k)
 			if strings.Contains(w[2], "A") {
-				s.A.store[k] = valBytes(atoi(w[3]))
+				s.A.store[k] = u.valBytes(k, atoi(w[3]))
 			}
 			if strings.Contains(w[2], "B") {
-				s.B.store[k] = valBytes(atoi(w[4]))
+				s.B.store[k] = u.valBytes(k, atoi(w[4]))
 			}
 			lines, impl = append(lines, line), append(impl, "ok")
 		case "fault":
@@ -111,6 +116,12 @@ func runCaseA(run *hx.Run, model *hx.Model, u *universe, name string, script []s
 				}
 				ml = fmt.Sprintf("fm %s %s %s", p1, p2, strings.Join(w[1:], " "))
 			}
+			if res.fromClose {
+				relaxed[len(lines)] = true
+				if report {
+					run.Count("read error reported by Close (not prefixed)")
+				}
+			}
 			lines, impl = append(lines, ml, "state"), append(impl, res.reply, s.state(true)+fmt.Sprintf(" | round %d", s.rounds))
 			if report {
 				run.Count("op:" + w[0])
@@ -128,7 +139,7 @@ func runCaseA(run *hx.Run, model *hx.Model, u *universe, name string, script []s
 		run.Compared(len(mo))
 		for i := range mo {
 			a, b := impl[i], mo[i]
-			if !exact {
+			if !exact || relaxed[i] {
 				a, b = relax(a), relax(b)
 			}
 			if a != b {
@@ -143,6 +154,7 @@ func runCaseA(run *hx.Run, model *hx.Model, u *universe, name string, script []s
 	if report {
 		run.Case(script, len(lines) >= 6, validated)
 		run.Count("repl:" + ab + "/" + ba)
+		run.Count(fmt.Sprintf("mode:late=%v,stream=%v,putlate=%v,%s", m.late, m.stream, m.putLate, m.consume))
 		if out.fired > 0 {
 			run.Count("faults-fired")
 		}
@@ -164,12 +176,21 @@ func genBaseA(r *hx.Rand) []string {
 	if r.Chance(1, 3) {
 		late = 1
 	}
-	script := []string{fmt.Sprintf("#cfg a %s %s %d", ab, ba, late)}
+	stream, putLate := r.Intn(2), r.Intn(2)
+	consume := []string{"slice", "chunks", "reader"}[r.Intn(3)]
+	script := []string{fmt.Sprintf("#cfg a %s %s %d %d %d %s", ab, ba, late, stream, putLate, consume)}
 	nkeys := r.Range(2, 5)
 	for k := 0; k < nkeys; k++ {
-		va := r.Range(1, 9)
+		// value 0 is the genuine blob (the only one a streaming replica serves as a stream)
+		// (buffers of streaming / late-failing replicas validate what is read
+		// against the digest, so only plain replicas can hold other values)
+		plain := late == 0 && stream == 0
+		va := 0
+		if plain && r.Chance(1, 2) {
+			va = r.Range(1, 9)
+		}
 		vb := va
-		if r.Chance(1, 5) {
+		if plain && r.Chance(1, 4) {
 			vb = r.Range(1, 9)
 		}
 		script = append(script, fmt.Sprintf("place %d %s %d %d", k, []string{"A", "B", "AB", "-"}[r.Intn(4)], va, vb))
@@ -182,7 +203,11 @@ func genBaseA(r *hx.Rand) []string {
 		case x < 45:
 			script = append(script, fmt.Sprintf("getc %d", r.Intn(nkeys+1)))
 		case x < 60:
-			script = append(script, fmt.Sprintf("put %d %d", r.Intn(nkeys+1), r.Range(1, 9)))
+			pv := 0
+			if late == 0 && stream == 0 {
+				pv = r.PickInt(0, r.Range(1, 9), r.Range(1, 9))
+			}
+			script = append(script, fmt.Sprintf("put %d %d", r.Intn(nkeys+1), pv))
 		case x < 90:
 			var ks []string
 			for k := 0; k <= nkeys; k++ {
@@ -216,15 +241,17 @@ func TestC11(t *testing.T) {
 	}
 	defer model.Close()
 	run.HasModel = model != nil
-	u := newUniverse()
+	u := newUniverse(true)   // mode (a): with blobs known under two instance names
+	ub := newUniverse(false) // mode (b): flat local stores ignore instance names
 	run.SetRule("mode a: random placements (A only, B only, both, neither; equal or differing values) of 2..5 keys and 3..9 operations " +
-		"(get, getc, put, fm, caps) over the real mirrored composite with every replicator, fault-free and with every single call made to fail " +
+		"(get, getc, put, fm, caps; keys 0/1 and 3/4 are one blob under two instance names) over the real mirrored composite with every replicator, " +
+		"byte-slice or streaming replicas, early or late errors of Get and Put, reads consumed as slice, chunk reader or io.Reader, fault-free and with every single call made to fail " +
 		"(thorough: pairs); mode b: replicas are real block-device backed local stores with rotation; non-trivial = at least 5 protocol lines; distinct by script hash")
 
 	if name, script := run.ReplayScript(); script != nil {
 		var o caseOut
 		if strings.HasPrefix(script[0], "#cfg b") {
-			o = runCaseB(run, model, u, name, script, true)
+			o = runCaseB(run, model, ub, name, script, true)
 		} else {
 			o = runCaseA(run, model, u, name, script, true)
 		}
@@ -237,5 +264,5 @@ func TestC11(t *testing.T) {
 		return
 	}
 	driveA(run, model, u)
-	driveB(run, model, u)
+	driveB(run, model, ub)
 }
